@@ -1,3 +1,97 @@
-/-  C10/Theorems — the ledger for property C10 (every theorem here is audited).  Placeholder. -/
+/-
+  C10/Theorems — the ledger for property C10.  Every `theorem` in this file is audited
+  (`#print axioms` ⊆ {propext, Classical.choice, Quot.sound}) on every run.
+-/
+import OttoVerif.C10.Lemmas
+import OttoVerif.C10.Match
+import OttoVerif.C10.Model
+import OttoVerif.C10.Spec
 namespace OttoVerif.C10.Thm
+open OttoVerif.C10 OttoVerif.C10.Model OttoVerif.C10.Lem
+
+/-! ## 1. the translation is sound on the whole grammar -/
+
+private theorem top_run (idc : Nat → Bool) (r : Re) (hwf : r.wf = true) :
+    loop idc true ((printES5 r).length + 1) (printES5 r) { out := [], err := false, inv := false }
+      = ({ out := printGo r, err := r.unsupported, inv := false }, []) := by
+  have h := loop_print idc r hwf true ((printES5 r).length + 1) [] { out := [], err := false, inv := false }
+    (by simp) (by intro _; rfl)
+  simp only [List.append_nil] at h
+  rw [h]
+  simp [loop, adv]
+
+private theorem print_empty (idc : Nat → Bool) (r : Re) (hwf : r.wf = true) (h : printES5 r = []) :
+    printGo r = [] ∧ r.unsupported = false := by
+  have := top_run idc r hwf
+  rw [h] at this
+  simp [loop] at this
+  exact ⟨this.1, this.2⟩
+
+/-- **transform_syntax.**  For every tree of the portable subset, TransformRegExp applied to its ES5
+    text returns, without error, exactly the Go text of the same tree: literals, every escape
+    spelling (`\xHH`, `\uHHHH` → `\x{HHHH}`, `\cX` → `\xNN`, control and identity escapes, `\0`),
+    classes (with `[\b]` → `\x08`), `\d \w \s \b \B`, groups, alternation, anchors, greedy and lazy
+    quantifiers.  (Induction on the tree: Lemmas.loop_print.) -/
+theorem transform_syntax (idc : Nat → Bool) (r : Re) (h : r.portable = true) :
+    transform idc (printES5 r) = .ok (printGo r) := by
+  simp [Re.portable] at h
+  unfold transform
+  by_cases he : (printES5 r).isEmpty = true
+  · rw [if_pos he]
+    have := print_empty idc r h.1 (by simpa using he)
+    rw [this.1]
+  · rw [if_neg he]
+    simp only [top_run idc r h.1, h.2]
+    simp
+
+/-- **transform_rejects.**  A well-formed ES5 pattern that contains a look-ahead `(?=` `(?!` or a
+    back-reference `\1`…`\9` (not followed by a digit) anywhere is reported as incompatible: the
+    error result that newRegExpObject turns into a TypeError.  Never silently translated. -/
+theorem transform_rejects (idc : Nat → Bool) (r : Re) (hwf : r.wf = true) (hu : r.unsupported = true) :
+    transform idc (printES5 r) = .incompatible (printGo r) := by
+  unfold transform
+  by_cases he : (printES5 r).isEmpty = true
+  · have := print_empty idc r hwf (by simpa using he)
+    rw [hu] at this; simp at this
+  · rw [if_neg he]
+    simp only [top_run idc r hwf, hu]
+    simp
+
+/-- non-vacuity: a pattern using most of the grammar is portable, and one with a look-ahead is not -/
+example : (Re.seq (.quant (.group (.alt (.ch (.uni 48 48 101 57)) (.set true [.range (.ch (.lit 97)) (.ch (.lit 122)), .one .bs])))
+    (.repRange [49] [51]) true) (.seq .wordb (.ch (.ctrl 74)))).portable = true := by decide
+example : transform (fun _ => false) (printES5 (.seq (.ch (.lit 97)) (.look false (.ch (.lit 98))))) =
+    .incompatible (printGo (.seq (.ch (.lit 97)) (.look false (.ch (.lit 98))))) :=
+  transform_rejects _ _ (by decide) (by decide)
+
+/-- Dev `backref_octal`: `\1` followed by `0` is not rejected but becomes the octal escape `\x08` -/
+example : transform (fun _ => false) [40, 97, 41, 92, 49, 48] = .ok [40, 97, 41, 92, 120, 48, 56] := by decide
+
+/-! ## 2. denotation of the atoms in the two dialects -/
+
+def dE (i mm : Bool) : Dialect := { es5 := true, icase := i, multiline := mm }
+def dG (i mm : Bool) : Dialect := { es5 := false, icase := i, multiline := mm }
+
+/-- `.`: the dialects agree exactly off `\r`, U+2028, U+2029 (Dev `dot_lineterm`) -/
+theorem dot_denotation (i mm : Bool) (c : Nat) :
+    dotTest (dE i mm) c = dotTest (dG i mm) c ↔ ¬ (c = 13 ∨ c = 0x2028 ∨ c = 0x2029) := by
+  simp only [dotTest, isLineTerm, dE, dG, isLineTermES5]
+  by_cases h1 : c = 10 <;> by_cases h2 : c = 13 <;> by_cases h3 : c = 0x2028 <;> by_cases h4 : c = 0x2029 <;> simp_all
+
+/-- `\d \D \w \W`: identical in both dialects, for every character -/
+theorem digit_word_denotation (i mm : Bool) (k : ClsK) (c : Nat) (hk : k ≠ .s ∧ k ≠ .S) :
+    clsTest (dE i mm) k c = clsTest (dG i mm) k c := by
+  cases k <;> simp_all [clsTest]
+
+/-- `\s`: the dialects agree exactly off `\v`, U+00A0, U+1680, U+180E, U+2000–200A, U+2028/9, U+202F,
+    U+205F, U+3000, U+FEFF (Dev `space_class`) -/
+theorem space_denotation (i mm : Bool) (c : Nat) :
+    clsTest (dE i mm) .s c = clsTest (dG i mm) .s c ↔
+      ¬ (c = 11 ∨ c = 0xA0 ∨ c = 0x1680 ∨ c = 0x180E ∨ (0x2000 ≤ c ∧ c ≤ 0x200A) ∨ c = 0x2028 ∨ c = 0x2029 ∨
+         c = 0x202F ∨ c = 0x205F ∨ c = 0x3000 ∨ c = 0xFEFF) := by
+  simp only [clsTest, dE, dG, isSpaceES5, isSpaceGo, if_true, if_false, Bool.false_eq_true]
+  rw [Bool.eq_iff_iff]
+  simp only [decide_eq_true_eq]
+  omega
+
 end OttoVerif.C10.Thm
